@@ -4,11 +4,11 @@ Line-protocol driver for C04 (cache transparency).  One request = one whole case
   c04 <default|sink> <dev|release> <graph> <device> <ops>
 
 graph  : nodes joined by `;` (node id = position):
-           P | R/<kind>/<base>/<sel>/<len>/<mode>/<acc>/<invs>/<port> | G/<pValue> | C/<pValue>/<cmdValue>
+           P | R/<kind>/<base>/<sel>/<len>/<mode>/<acc>/<invs>/<port> | G/<pValue>/<copies> | C/<pValue>/<cmdValue>
          kind: I<l|b><s|u> | M<l|b><s|u>.<lsb>.<msb> | F<l|b> | S | B      sel: - | <node>*<offset>
          mode: WT|WA|NC   acc: RO|WO|RW   invs: - | n,n,..
 device : <memhex>/<noAccess>/<noWrite>/<rejW>   ranges `a+l,..` or `-`; rejW `k,..` or `-`
-ops    : joined by `;`: v/n  s/n/<val>  r/n/<buflen>  w/n/<hex>  e/n  d/n  pr/n/a/l  pw/n/a/<hex>  cc
+ops    : joined by `;`: v/n  s/n/<val>  r/n/<buflen>  w/n/<hex>  e/n  d/n  pr/n/a/l  pw/n/a/<hex>  cc  a/n
          val: i<int> | f<width>.<bits> | x<hex>
 answer : <results joined by ,>#<final image hex>#<access log oldest first>
 -/
@@ -68,7 +68,7 @@ def parseNode (s : String) : Option Node :=
   | ["R", k, base, sel, len, mode, acc, invs, port] => do
     pure (.reg ⟨← parseKind k, ← base.toInt?, ← parseSel sel, ← len.toNat?, ← parseMode mode,
       ← parseAcc acc, ← parseList (·.toNat?) invs ",", ← port.toNat?⟩)
-  | ["G", pv] => do pure (.integer (← pv.toNat?))
+  | ["G", pv, cs] => do pure (.integer (← pv.toNat?) (← parseList (·.toNat?) cs ","))
   | ["C", pv, cv] => do pure (.command (← pv.toNat?) (← cv.toInt?))
   | _ => none
 
@@ -105,6 +105,7 @@ def parseOp (s : String) : Option Op :=
   | ["pr", n, a, l] => do pure (.portRead (← n.toNat?) (← a.toInt?) (← l.toNat?))
   | ["pw", n, a, d] => do pure (.portWrite (← n.toNat?) (← a.toInt?) (← hexToBytes d))
   | ["cc"] => some .clearCache
+  | ["a", n] => do pure (.address (← n.toNat?))
   | _ => none
 
 def errName : Err → String
